@@ -33,7 +33,10 @@ def _clean(data):
     i = data.find(b"<")
     if i > 0:
         data = data[i:]
-    data = re.sub(rb"\A<\?xml[^>]*\?>", b"", data, count=1)
+    data = re.sub(rb"\A<\?.*?\?>", b"", data, count=1, flags=re.S)      # the declaration (or whatever a damaged one now reads as)
+    i = data.find(b"<")
+    if i > 0:
+        data = data[i:]                                                 # characters between prolog and root element
     return re.sub(rb"<!-.*?-->", b"", data, flags=re.S)      # "<!-" can only open a comment
 
 
